@@ -71,11 +71,67 @@ fn wrapper(a: &[String]) -> ! {
     std::process::exit(0)
 }
 
+/// `ctl <head> <len> <e1> <expect>`: from_term on `{head, e1, 2, 3, ..}` (len elements); expect is `ERR`, `GENERIC` or
+/// `Variant:field1,field2,..` (the protocol's field order; a field named `id` is the u64 id).  Exit 101 on mismatch.
+fn ctl(a: &[String]) -> ! {
+    use edp_client::control::ControlMessage;
+    use erltf::OwnedTerm;
+    let head: i64 = a[2].parse().unwrap();
+    let len: usize = a[3].parse().unwrap();
+    let e1: i64 = a[4].parse().unwrap();
+    let expect = a[5].as_str();
+    let mut v = Vec::new();
+    for i in 0..len {
+        v.push(OwnedTerm::Integer(if i == 0 { head } else if i == 1 { e1 } else { i as i64 }));
+    }
+    let t = OwnedTerm::Tuple(v);
+    let r = ControlMessage::from_term(&t);
+    let shown = format!("{:?}", r);
+    let ok = match (&r, expect) {
+        (Err(_), "ERR") => true,
+        (Ok(m), "GENERIC") => {
+            let mut fields = String::new();
+            for i in 1..len {
+                if i > 1 {
+                    fields.push_str(", ");
+                }
+                fields.push_str(&format!("Integer({})", if i == 1 { e1 } else { i as i64 }));
+            }
+            format!("{:?}", m) == format!("Generic {{ message_type: {}, fields: [{}] }}", head, fields)
+        }
+        (Ok(m), e) if e.contains(':') => {
+            let (name, fl) = e.split_once(':').unwrap();
+            let d = format!("{:?}", m);
+            let fields: Vec<&str> = if fl.is_empty() { vec![] } else { fl.split(',').collect() };
+            let mut good = d == name || d.starts_with(&format!("{} {{", name));
+            for (k, f) in fields.iter().enumerate() {
+                let val = if k == 0 { e1 } else { (k + 1) as i64 };
+                let want = if *f == "id" { format!("id: {}", val) } else { format!("{}: Integer({})", f, val) };
+                if !d.contains(&want) {
+                    good = false;
+                }
+            }
+            // no field beyond the protocol's
+            good && d.matches(": ").count() == fields.len()
+        }
+        _ => false,
+    };
+    if !ok {
+        eprintln!("REPLAY: from_term gave {} but the protocol table expects {}", shown, expect);
+        std::process::exit(101);
+    }
+    println!("REPLAY: from_term gave {} as expected", shown);
+    std::process::exit(0)
+}
+
 fn main() {
     let a: Vec<String> = std::env::args().collect();
     let kind = a[1].as_str();
     if kind == "wrapper" {
         wrapper(&a);
+    }
+    if kind == "ctl" {
+        ctl(&a);
     }
     let t: usize = a[2].parse().unwrap();
     let k: usize = a[3].parse().unwrap();
